@@ -54,6 +54,8 @@ pub enum PrefixOp {
     TimersOnceAt(u64, Vec<usize>),
     /// Byzantine vote k of the alphabet reaches the listed real nodes
     ByzTo(usize, Vec<usize>),
+    /// everything real node `from` has emitted so far reaches real node `to` (one direction only)
+    DeliverFromTo(usize, usize),
 }
 
 pub struct ClusterWorld {
@@ -602,6 +604,13 @@ impl Sys for ClusterSys {
                             break;
                         }
                     },
+                    PrefixOp::DeliverFromTo(j, i) => {
+                        while w.next[*i][*j] < w.emitted[*j].len() {
+                            let m = w.emitted[*j][w.next[*i][*j]].clone();
+                            w.next[*i][*j] += 1;
+                            self.feed(&mut w, *i, &m);
+                        }
+                    }
                     PrefixOp::TimersOnceAt(win, at) => {
                         for i in at {
                             w.cores[*i].fire_timer(*win);
